@@ -6,6 +6,9 @@ other types with reflect (StructOf/SliceOf/ArrayOf/MapOf/PointerTo) to depth 3. 
   field    a struct field of every generated type read through a proxy
   set      `c0.F = <expr>; c0.F`: Go-side struct state afterwards and the value read back
   call/ret methods of the receiver zoo: arguments received on the Go side, results converted back
+  reuse    2..4 evaluations that pass a global under the same name, on ONE VM (vm.NewEmpty + risor.WithVM) and on a VM each: the
+           same pointer / slice / map again, after the host stored new contents in place, an equal copy of a value type after a
+           script changed its view, another value, another type - the Go value a script sees is the one passed to THIS evaluation
 Every case runs through the implementation (under recover) and through the extracted Gallina model of
 object/typeconv.go + proxy.go (exact agreement of outcome class, result object, Interface() value, Go-side heap and
 received arguments), and an oracle that knows nothing of the model judges the implementation's observations:
@@ -1335,6 +1338,186 @@ def oracle(case, g):
     return viol
 
 
+
+# ------------------------------------------------------------------ sequences of evaluations that pass the same-named global again
+
+def peel(t, v):
+    """what the script sees behind the transparent pointers: (type, value or None when a pointer on the way is nil, pointers peeled)"""
+    n = 0
+    u = under(t)
+    while u[0] == "ptr":
+        if v is not None:
+            v = v[1] if v[0] == "box" else None
+        u = under(u[1])
+        n += 1
+    return u, v, n
+
+
+def script_reaches_go(t):
+    """can `g0.F = x` / `g0[i] = x` in a script change memory the host still holds?  (a proxy of a pointed-to struct aliases it;
+    a byte_slice / float_slice object wraps the Go slice itself; everything else is converted into a copy)"""
+    u, _, n = peel(t, None)
+    return (u[0] == "struct" and n >= 1) or u in (("slice", ("int", "uint8")), ("slice", ("f64",)))
+
+
+def mutate_script(g, t, v):
+    """a script that changes ITS view of the global g0 and then reads it, or None"""
+    u, pv, _ = peel(t, v)
+    if pv is None:
+        return None
+    if u[0] == "struct" and u[2] and pv[0] == "st":
+        n, ft = g.rng.choice(u[2])
+        lit = o_src(g.literal_for(ft, good=True))
+        return None if lit is None else "g0.%s = %s\ng0.%s" % (n.decode(), lit, n.decode())
+    if u[0] in ("slice", "array") and pv[0] in ("sl", "arr") and pv[1]:
+        lit = o_src(g.literal_for(u[1] if u[0] == "slice" else u[2], good=True))
+        return None if lit is None else "g0[0] = %s\ng0" % lit
+    if u[0] == "map" and pv[0] == "map":
+        lit = o_src(g.literal_for(u[1], good=True))
+        return None if lit is None else 'g0["a"] = %s\ng0' % lit
+    return None
+
+
+def poke_value(g, t, cur):
+    """new contents of the same shape, to be stored in place by the host: (value tree, the global's value afterwards) or None"""
+    u = under(t)
+    if u[0] == "ptr" and cur[0] == "box":
+        nv = ("box", g.value(u[1], 1))
+        return nv, nv
+    if u[0] == "slice" and cur[0] == "sl" and cur[1]:
+        nv = ("sl", [g.value(u[1], 1) for _ in cur[1]])
+        return nv, nv
+    if u[0] == "map" and cur[0] == "map":
+        for _ in range(4):
+            nv = g.value(t)
+            if nv[0] == "map":
+                return nv, nv
+    return None
+
+
+REUSE_SHAPES = [lambda g: ("ptr", g.scalar(False)), lambda g: ("slice", g.scalar(False)), lambda g: ("map", g.scalar(False)),
+                lambda g: ("array", 1 + g.rng.below(3), g.scalar(False)),
+                lambda g: g.struct([(b"F0", g.scalar(False)), (b"F1", g.type(1, False))]),
+                lambda g: ("ptr", ("array", 2, g.scalar(False))), lambda g: ("ptr", g.struct([(b"F0", g.scalar(False))]))]
+
+
+def gen_reuse(rng, g):
+    """2..4 evaluations that all pass a global named g0: the same Go value again (the same pointer / slice / map, an equal copy of a
+    value type), the same value after the host changed it in place, another value of the same type, a value of another type;
+    scripts read g0 or first change their own view of it"""
+    def new_type():
+        if rng.chance(1, 2):
+            return rng.choice(REUSE_SHAPES)(g)
+        return g.type(3 if rng.chance(1, 3) else 2, not rng.chance(2, 3))
+    t = new_type()
+    cur = g.value(t)
+    known = True
+    steps = []
+    for i in range(2 + rng.below(3)):
+        st = {"t": t, "same": False, "poke": None, "how": "new"}
+        if i > 0:
+            r = rng.below(10)
+            if r < 3:
+                st.update(same=True, how="same")
+            elif r < 6:
+                pk = poke_value(g, t, cur)
+                if pk is None:
+                    st.update(same=True, how="same")
+                else:
+                    st.update(same=True, poke=pk[0], how="poked")
+                    cur, known = pk[1], True
+            elif r < 9:
+                cur, known = g.value(t), True
+            else:
+                t = new_type()
+                cur, known = g.value(t), True
+                st["t"] = t
+        st["v"] = cur
+        st["known"] = known
+        src = mutate_script(g, t, cur) if rng.chance(2, 5) else None
+        if src is None:
+            st["src"], st["mut"] = "g0", False
+        else:
+            st["src"], st["mut"] = src, True
+            if script_reaches_go(t):
+                known = False
+        steps.append(st)
+    return steps
+
+
+def encode_reuse(steps, reuse):
+    seq = []
+    for st in steps:
+        gl = {"t": t_json(st["t"]), "v": v_json(st["v"])}
+        if st["same"]:
+            gl["same"] = True
+            if st["poke"] is not None:
+                gl["poke"] = v_json(st["poke"])
+        seq.append({"cells": [], "globals": [gl], "src": st["src"].encode().hex()})
+    return json.dumps({"seq": seq, "reuse": reuse})
+
+
+def reuse_oracle(steps, reused, fresh):
+    """the Go value a script sees for a global is the one passed to THIS evaluation.  -> list of (step, aspect, why, known class)"""
+    viol = []
+    for i, st in enumerate(steps):
+        gr = reused[i]
+        case = {"kind": "global" if (not st["mut"] and st["known"]) else "reuse-step", "cells": [], "globals": [(st["t"], st["v"])],
+                "script": ("expr", ("g", 0)), "meta": {"t": st["t"], "v": st["v"]}}
+        # (what an assignment in a script may do - conversion of the literal - is judged by the set cases of the main stream, where
+        # the known-finding classes are decided on the literal; here a changing script is held against its twin only)
+        for aspect, why, cls in ([] if st["mut"] else oracle(case, gr)):
+            viol.append((i, aspect, "evaluation %d on the reused VM (g0 %s, %s): %s" % (i, st["how"], tstr(st["t"]), why), cls))
+        gf = fresh[i]
+        a = (gr.get("outcome"), gr.get("obj"), gr.get("iface"))
+        b = (gf.get("outcome"), gf.get("obj"), gf.get("iface"))
+        if a != b and not any(v[0] == i for v in viol):
+            viol.append((i, "reused-vm", "evaluation %d of the sequence, `%s` with g0 = %s : %s (%s), gives %s on the VM that ran the earlier "
+                         "evaluations and %s on a VM of its own; the host handed over the same Go values both times%s" % (
+                             i, st["src"].replace("\n", "; "), plain(st["v"])[:120], tstr(st["t"]), st["how"],
+                             (a[0], a[2] or gr.get("raw", "")[:120]), (b[0], b[2] or gf.get("raw", "")[:120]),
+                             "" if a[0] != "escaped" else ": " + gr.get("raw", "")[:160]), None))
+    return viol
+
+
+def run_reuse(res, obs, rng, n, work, known):
+    """-> (evaluations, violations, known-class hits, stats)"""
+    g = Gen(rng)
+    seqs = [gen_reuse(rng, g) for _ in range(n)]
+    lines_r = [encode_reuse(sq, True) for sq in seqs]
+    lines_f = [encode_reuse(sq, False) for sq in seqs]
+    out_r = run_lines(obs, lines_r, work, "reuse")
+    out_f = run_lines(obs, lines_f, work, "fresh")
+    viol, hits = [], {}
+    stats = {"sequences": len(seqs), "steps": 0, "how": {}, "mutating_scripts": 0, "judged_against_the_go_value": 0, "bad": 0}
+    if len(out_r) != len(seqs) or len(out_f) != len(seqs):
+        return 0, [{"property": PROP, "kind": "harness-run-failed", "stage": "reuse sequences: line counts", "reused": len(out_r),
+                    "fresh": len(out_f), "cases": len(seqs)}], hits, stats
+    for sq, lr, lf, jl in zip(seqs, out_r, out_f, lines_r):
+        jr, jf = json.loads(lr), json.loads(lf)
+        sr, sf = jr.get("steps") or [], jf.get("steps") or []
+        if len(sr) != len(sq) or len(sf) != len(sq) or any(x.get("outcome") == "BADCASE" for x in sr + sf):
+            stats["bad"] += 1
+            continue
+        stats["steps"] += len(sq)
+        for st in sq:
+            stats["how"][st["how"]] = stats["how"].get(st["how"], 0) + 1
+            stats["mutating_scripts"] += 1 if st["mut"] else 0
+            stats["judged_against_the_go_value"] += 1 if (st["known"] and not st["mut"]) else 0
+        for i, aspect, why, cls in reuse_oracle(sq, sr, sf):
+            if cls is not None and cls in known:
+                d = hits.setdefault(cls, {"n": 0, "examples": []})
+                d["n"] += 1
+                if len(d["examples"]) < 3:
+                    d["examples"].append({"script": sq[i]["src"], "why": why})
+            else:
+                viol.append({"property": PROP, "kind": "oracle-violation", "aspect": aspect, "why": why, "case_kind": "reuse-sequence",
+                             "script": " ;; ".join("[g0 %s] %s" % (st["how"], st["src"].replace("\n", "; ")) for st in sq),
+                             "go_case": jl, "impl": sr, "fresh_vm": sf})
+                break
+    return 2 * stats["steps"], viol, hits, stats
+
+
 # ------------------------------------------------------------------ histories over one proxied struct (harness/cmd/c08hist)
 
 def gen_history(rng):
@@ -1537,17 +1720,31 @@ def body(res, obs, model, work, proved):
     if hviol is None:
         return
     oracle_viol += hviol
+    nr, rviol, rhits, rstats = run_reuse(res, obs, rng, 1500 if res.tier == "quick" else 25000, work, known)
+    oracle_viol += [v for v in rviol if v.get("kind") == "oracle-violation"]
+    corr += [{"stage": v.get("stage"), "impl": v} for v in rviol if v.get("kind") != "oracle-violation"]
+    for cls, d in rhits.items():
+        kd = known_hits.setdefault(cls, {"n": 0, "examples": []})
+        kd["n"] += d["n"]
+        kd["examples"] += d["examples"][:max(0, 3 - len(kd["examples"]))]
+    cov["reuse_sequences"] = dict(rstats, what="2..4 evaluations that pass a global under the same name: each sequence runs on ONE VM "
+                                  "(vm.NewEmpty + risor.WithVM) and, with the same Go values and host-side changes, on a new VM per evaluation; "
+                                  "the same pointer / slice / map again, after the host stored new contents in place, an equal copy of a struct "
+                                  "/ array value after a script changed ITS view, another value, another type; every observation on the reused "
+                                  "VM must equal the one on a VM of its own and (for reads of a value the host knows) the Go value handed to "
+                                  "THIS evaluation")
     cov["histories"] = {"evaluated": nh, "what": "script-side reads / writes through pointer, interface and struct-valued fields of one proxied "
                         "struct interleaved with Go-side replacements of those fields (methods), references kept by the script; expected "
                         "observations from a reference model of Go's pointer semantics (checks/c08.py model_history)"}
-    cov["evaluations"] = len(keep) + nh
+    cov["evaluations"] = len(keep) + nh + nr
     cov["distinct_nontrivial"] = len(nontrivial)
     cov["rule"] = ("%d cases: Go types built with reflect (StructOf/SliceOf/ArrayOf/MapOf/PointerTo) to depth 3 over bool, all sized "
                    "ints/uints, floats, string, byte, time.Time, interface{} and a zoo of 16 declared named types, values incl. zero, nil, "
                    "extremes; as globals (result object and result.Interface()), as struct fields read through a proxy, written from script "
                    "literals / from other Go values and read back (Go-side struct state and script-side value), as arguments and results of a "
                    "zoo of 55 methods; every evaluation under recover; each observation compared with the extracted Gallina model and judged by "
-                   "an independent oracle (documented widening, read-back, exact arguments). Non-trivial = distinct set/call cases that "
+                   "an independent oracle (documented widening, read-back, exact arguments); plus histories over one proxied struct and "
+                   "sequences of evaluations on one reused VM that pass the same-named global again (coverage.reuse_sequences). Non-trivial = distinct set/call cases that "
                    "succeeded plus global/field cases of compound types." % len(keep))
     cov["samples"] = samples
     cov["correspondence"] = {"differences": len(corr), "stats": stats}
